@@ -101,9 +101,19 @@ int main(int argc, char** argv) {
                     if (sk == "2") setenv("BLOCH_VERIF_CACHE_READONLY", "1", 1); else unsetenv("BLOCH_VERIF_CACHE_READONLY");
                     std::filesystem::path dir = cf.parent_path(), aside = dir; aside += ".aside";
                     if (sk == "3") { std::filesystem::rename(dir, aside); std::ofstream block(dir); block << "x"; }
+                    // sk 4: the cache file swallows writes and yields nothing (a link to /dev/null) - no hook involved
+                    std::filesystem::path cfAside = cf; cfAside += ".aside";
+                    bool hadCache = false;
+                    if (sk == "4") {
+                        std::error_code ec;
+                        hadCache = std::filesystem::exists(cf, ec);
+                        if (hadCache) std::filesystem::rename(cf, cfAside);
+                        std::filesystem::create_symlink("/dev/null", cf);
+                    }
                     std::string o;
                     { Capture cap; checkForUpdatesIfDue(unhex(cur)); o = cap.out.str(); }
                     if (sk == "3") { std::filesystem::remove(dir); std::filesystem::rename(aside, dir); }
+                    if (sk == "4") { std::filesystem::remove(cf); if (hadCache) std::filesystem::rename(cfAside, cf); }
                     unsetenv("BLOCH_VERIF_CACHE_READONLY");
                     int count = 0; size_t pos = 0;
                     while ((pos = o.find("There is a new", pos)) != std::string::npos) {
